@@ -42,10 +42,10 @@ pub struct MStyle {
 
 pub const M_DEFAULT: MStyle = MStyle { fg: MColor::Default, bg: MColor::Default, ul: MColor::Default, eff: 0 };
 
-pub const MAXP: usize = 8;
+pub const MAXP: usize = 10;
 
 /// One CSI parameter list: values, and for each value whether it is attached
-/// to the previous one by ':' (a sub-parameter).  (MAXP = 8 values: enough for every
+/// to the previous one by ':' (a sub-parameter).  (MAXP = 10 values: enough for every
 /// list the harnesses build or the crate renders; longer lists are classified Open.)
 #[derive(Copy, Clone)]
 pub struct MParams {
